@@ -1,5 +1,6 @@
 import MpfVerif.Lemmas.LogicBlock
 import MpfVerif.Lemmas.LogicBlockGen
+import MpfVerif.Lemmas.StateMachine
 /-!
 # C18 — logic blocks count, accrue and sequence exactly as specified
 
@@ -349,6 +350,33 @@ theorem reachable_count_refines_source (c : Cfg) (ops : List Op) (hk : c.kind = 
       genRun c (run c (init c) ops).1 Gen.LogicBlockOps.count [] = (((run c (init c) ops).1, []), false, false, some .none)) := by
   have h := (counter_methods_refine_source c _ hk (counter_flags_stay_empty c ops hk) hl).1
   exact ⟨h, fun ha => by rw [h, count_rejected c _ ha]⟩
+
+/-! ## state machine devices (not named by the property's text: model facts backing the comparison run) -/
+
+/-- **A transition whose source does not match is ignored** (at dispatch start): an event for which no transition has the
+current state among its sources changes nothing and posts nothing - in every state, also while the owning mode is not
+running. -/
+theorem sm_unmatched_event_ignored (c : StateMachine.Cfg) (s : StateMachine.St) (k : Nat)
+    (hn : ∀ i, s.cur = some i → ∀ t ∈ c.trans, i ∈ t.src → k ∉ t.events) : StateMachine.step c s (.ev k) = (s, []) := by
+  cases hc : s.cur with
+  | none => simp [StateMachine.step, hc]
+  | some i =>
+    simp only [StateMachine.step, hc, StateMachine.no_match i k c.trans 0 (hn i hc), StateMachine.takeAll]
+    cases s; simp_all
+
+def smTwo : StateMachine.Cfg :=
+  { nStates := 3, onEv := [true, true, true], offEv := [true, true, true], trans := [⟨[0], 1, [0], true⟩, ⟨[0], 2, [0], true⟩] }
+def smChain : StateMachine.Cfg :=
+  { nStates := 3, onEv := [true, true, true], offEv := [true, true, true], trans := [⟨[0], 1, [0], true⟩, ⟨[1], 2, [0], true⟩] }
+
+/-- observed on the real device and reproduced by the model (kernel-evaluated): with two transitions on one event out of
+one state, both handlers run - the second one out of a state that is NOT among its sources (st0 -e0-> st1, then the stale
+handler st0 -e0-> st2 fires from st1), while a chain st0 -e0-> st1 -e0-> st2 advances only one state per event. -/
+theorem sm_stale_handler_witness :
+    (StateMachine.step smTwo (StateMachine.init smTwo true) (.ev 0)).1.cur = some 2 ∧
+    (StateMachine.step smTwo (StateMachine.init smTwo true) (.ev 0)).2 =
+      [.stopped 0, .transitioning 0, .started 1, .stopped 1, .transitioning 1, .started 2] ∧
+    (StateMachine.step smChain (StateMachine.init smChain true) (.ev 0)).1.cur = some 1 := by decide
 
 /-! ## the hypotheses are satisfiable on concrete, non-trivial runs (kernel evaluation) -/
 
